@@ -493,6 +493,19 @@ pub fn isolate_main() -> i32 {
 /// grids of E).  Extremes that are known to hang or to need huge set-up are excluded
 /// (C03/C05 own those).
 pub fn pool(seed: u64) -> Vec<DistSpec> {
+    static CACHE: std::sync::Mutex<Option<(u64, Vec<DistSpec>)>> = std::sync::Mutex::new(None);
+    let mut g = CACHE.lock().unwrap_or_else(|e| e.into_inner());
+    if let Some((s, v)) = g.as_ref() {
+        if *s == seed {
+            return v.clone();
+        }
+    }
+    let v = pool_uncached(seed);
+    *g = Some((seed, v.clone()));
+    v
+}
+
+fn pool_uncached(seed: u64) -> Vec<DistSpec> {
     let mut v = Vec::new();
     let mut r = SimRng::new(mix(&[seed, 0xC14]));
     for s in [Scalar::F32, Scalar::F64] {
@@ -552,12 +565,88 @@ pub fn pool(seed: u64) -> Vec<DistSpec> {
         }
         v.extend(extra);
     }
+    v.extend(field_cover_specs(seed));
     // keep constructors cheap: drop HIN set-ups that take long and vectors above 100 entries
     v.retain(|s| match s.family {
         Family::Hypergeometric => s.n[0] <= 1 << 40 && build_caught(s).is_ok(),
         _ => true,
     });
     v
+}
+
+/// Field-value coverage search: parameter sets built from "round" values are kept when
+/// their serialised form reaches a (field path, special value) pair that no earlier
+/// candidate of the family reached -- a stored constant that is exactly 0, 1, -1, infinite,
+/// `None`, an empty sequence, or a new enum variant.  Shortcuts such as "skip the field
+/// when it has its default value" only misbehave at such points, and they are isolated
+/// (e.g. Binomial's BINV constant a == 1 iff p == 1/(n+2)).
+pub fn field_cover_specs(seed: u64) -> Vec<DistSpec> {
+    use crate::serde_fmt::{decode_value, special_leaves};
+    const FL: [f64; 24] = [
+        0.0, 0.01, 0.02, 0.04, 0.05, 0.1, 0.125, 0.2, 0.25, 0.3, 0.5, 0.75, 0.8, 0.9, 1.0, 1.5, 2.0, 3.0, 4.0, 10.0, 100.0,
+        -1.0, -0.5, 1e6,
+    ];
+    const IN: [u64; 14] = [0, 1, 2, 3, 4, 5, 6, 8, 10, 18, 20, 48, 98, 1000];
+    let mut r = SimRng::new(mix(&[seed, 0xF1E1D]));
+    let mut out = Vec::new();
+    let fams: Vec<(Family, Vec<Scalar>)> = env::CONT_FAMILIES
+        .iter()
+        .chain(env::DISC_FLOAT_FAMILIES.iter())
+        .map(|f| (*f, vec![Scalar::F32, Scalar::F64]))
+        .chain(env::DISC_INT_FAMILIES.iter().map(|f| (*f, vec![Scalar::None])))
+        .collect();
+    for (fam, scalars) in fams {
+        if matches!(fam, Family::Zipf | Family::Zeta) {
+            continue;
+        }
+        for s in scalars {
+            let grid = if env::CONT_FAMILIES.contains(&fam) { env::cont_grid(fam, s) } else { env::disc_grid(fam, s) };
+            let Some(base) = grid.first() else { continue };
+            let (np, nn) = (base.p.len(), base.n.len());
+            if np + nn == 0 {
+                continue;
+            }
+            let total = (FL.len() as u64).saturating_pow(np as u32).saturating_mul((IN.len() as u64).saturating_pow(nn as u32));
+            let tries = total.min(3000);
+            // up to three representatives per (path, value) pair
+            let mut covered: BTreeMap<String, u32> = BTreeMap::new();
+            // the grid points of E come first: only what they do not reach is added
+            let mut cands: Vec<(DistSpec, bool)> = grid.iter().map(|g| (g.clone(), false)).collect();
+            for t in 0..tries {
+                let mut c = base.clone();
+                let mut k = if total <= 3000 { t } else { r.word() % total };
+                for i in 0..np {
+                    c.p[i] = FL[(k % FL.len() as u64) as usize];
+                    k /= FL.len() as u64;
+                }
+                for i in 0..nn {
+                    c.n[i] = IN[(k % IN.len() as u64) as usize];
+                    k /= IN.len() as u64;
+                }
+                cands.push((c, true));
+            }
+            for (c, is_new) in cands {
+                let Ok(obj) = build_caught(&c) else { continue };
+                // a constructor that lets a documented-invalid argument through and stores
+                // NaN (LogNormal::from_mean_cv(-1, 0): C04's domain) yields no valid value
+                if is_new && obj.eq_obj(obj.as_ref()) == Some(false) {
+                    continue;
+                }
+                let Some(Ok(bytes)) = obj.ser(Fmt::Val) else { continue };
+                let Ok(val) = decode_value(&bytes) else { continue };
+                let mut fresh = false;
+                for leaf in special_leaves(&val) {
+                    let n = covered.entry(leaf).or_insert(0);
+                    *n += 1;
+                    fresh |= *n <= 3;
+                }
+                if fresh && is_new {
+                    out.push(c);
+                }
+            }
+        }
+    }
+    out
 }
 
 /// A value of the same family that agrees with `spec` in one parameter or in a derived
